@@ -5,6 +5,9 @@ pub mod c01;
 pub mod c02;
 pub mod c03;
 pub mod c04;
+pub mod c05;
+pub mod c06;
+pub mod c07;
 
 pub fn run(prop: &str, opts: &Opts) -> bool {
     match prop {
@@ -13,6 +16,9 @@ pub fn run(prop: &str, opts: &Opts) -> bool {
         "c03" => c03::run(opts),
         "c04" => c04::run(opts),
         "c04feed" => c04::feed(opts),
+        "c05" => c05::run(opts),
+        "c06" => c06::run(opts),
+        "c07" => c07::run(opts),
         _ => return false,
     }
     true
